@@ -146,6 +146,29 @@ def registerHandle (s : St) (t : Option Trig) : Handle := (addCustom s.svc t).2
 /-- nothing in flight -/
 def quiescent (s : St) : Bool := s.svc.queued.isEmpty && s.pre.isEmpty && s.holding.isEmpty
 
+/-! ### register / unregister on a closed task handler (after `TaskHandler.flush()`) -/
+
+/-- the call reaches `__trigger_update` (it would have queued an apply task) -/
+def registerSubmits (v : Svc) (built : Option Trig) : Bool := (addCustom v built).1.queued.length != v.queued.length
+def unregisterSubmits (v : Svc) (h : Handle) : Bool := (removeCustom v h).queued.length != v.queued.length
+
+/-- `Deep.register_tracepoint` when `submit_task` refuses with `refusal`: the state left, the handle `add_custom` had
+    in hand, and the exception that leaves the call instead of the handle (none = the call returns it) -/
+def registerClosed (v : Svc) (built : Option Trig) (refusal : Py.Exn) : Svc × Handle × Option Py.Exn :=
+  ((addCustomRefused v built).1, (addCustomRefused v built).2, if registerSubmits v built then some refusal else none)
+
+def unregisterClosed (v : Svc) (h : Handle) (refusal : Py.Exn) : Svc × Option Py.Exn :=
+  (removeCustomRefused v h, if unregisterSubmits v h then some refusal else none)
+
+inductive ClosedOp where
+  | register (built : Option Trig)
+  | unregister (h : Handle)
+deriving Repr, DecidableEq
+
+def closedStep (refusal : Py.Exn) (v : Svc) : ClosedOp → Svc
+  | .register b => (registerClosed v b refusal).1
+  | .unregister h => (unregisterClosed v h refusal).1
+
 /-! ### reference kept from the statement -/
 
 structure Ref where
